@@ -213,10 +213,32 @@ func genVals(r *Rng, n int) []int64 {
 func genSpec(r *Rng, lim GenLimits) (TrieSpec, string) {
 	keys, name := genKeys(r, lim)
 	s := TrieSpec{Keys: keys, Opt: genOpt(r)}
-	w := []int{2, 2, 6, 3, 2, 2, 2, 3, 4, 3, 2, 2}
+	w := []int{2, 2, 6, 3, 2, 2, 2, 3, 4, 3, 2, 2, 1, 1, 1}
 	s.Enc = encKinds[r.WeightedPick(w)]
 	s.ValIDs = genVals(r, len(keys))
 	return s, name
+}
+
+// genBigValueSpec: few keys, huge values. Size thresholds in value handling
+// ("only arrays above N bytes take the fast path") are cheap to cross this way:
+// 2 000..9 000 keys with 1 KiB values give 2..9 MiB of leaf bytes while the
+// trie itself stays small.
+func genBigValueSpec(r *Rng) (TrieSpec, string) {
+	n := r.PickI(80, 1100, 2200, 4500, 9000)
+	stride := r.PickI(1, 3, 7)
+	set := map[string]bool{}
+	format := r.PickS("k%06d", "%07x", "big/%05d/v")
+	for i := 0; len(set) < n; i++ {
+		set[fmt.Sprintf(format, i*stride)] = true
+	}
+	s := TrieSpec{Keys: sortUniq(set), Opt: genOpt(r)}
+	s.Enc = r.PickS("bytes1k", "bytes1k", "bytes64", "str16long")
+	s.Opt[0] = int8(r.PickI(0, 0, -1)) // mostly without de-duplication: every value is stored
+	s.ValIDs = make([]int64, len(s.Keys))
+	for i := range s.ValIDs {
+		s.ValIDs[i] = int64(i)
+	}
+	return s, "bigvalues/" + s.Enc
 }
 
 // genQueries derives query strings from a key list: indexed keys, one-bit and
